@@ -53,6 +53,63 @@ def collected_paths_problems(apps, has_dest, has_src) -> list[str]:
     return out
 
 
+def exists_predicates(P, module) -> dict[str, tuple[int, int]]:
+    """Module-level functions f(A, B) that return true iff some element of A `.match`es some element of B: name -> (index of the
+    regex-list parameter, index of the path-list parameter).  Decided on the function's own paths: every truthy return follows a
+    positive `<elem of A>.match(<elem of B>)` test inside loops over the two parameters, every falsy return follows none."""
+    out = {}
+    for name, fi in module.functions.items():
+        params = [a.arg for a in fi.node.args.args]
+        if len(params) != 2 or not name.startswith("_"):
+            continue
+        rets = [n for n in ast.walk(fi.node) if isinstance(n, ast.Return)]
+        if len(rets) == 1 and isinstance(rets[0].value, ast.Call) and ast.unparse(rets[0].value.func) == "any" and len(fi.node.body) <= 2:
+            g = rets[0].value.args[0] if rets[0].value.args else None
+            if isinstance(g, (ast.GeneratorExp, ast.ListComp)) and len(g.generators) == 2 and isinstance(g.elt, ast.Call) and isinstance(g.elt.func, ast.Attribute) and g.elt.func.attr == "match":
+                its = [ast.unparse(x.iter) for x in g.generators]
+                tg = [ast.unparse(x.target) for x in g.generators]
+                if set(its) == set(params) and ast.unparse(g.elt.func.value) in tg and len(g.elt.args) == 1 and ast.unparse(g.elt.args[0]) in tg and not any(x.ifs for x in g.generators):
+                    ri = params.index(its[tg.index(ast.unparse(g.elt.func.value))])
+                    out[name] = (ri, 1 - ri)
+            continue
+        try:
+            paths = Enumerator(Cfg(P)).run(fi)
+        except AnalysisError:
+            continue
+        ok, roles, ntrue, nfalse = True, None, 0, 0
+        for p in paths:
+            if p.outcome[0] != "return" or not isinstance(p.outcome[1], ast.Constant) or not isinstance(p.outcome[1].value, bool):
+                ok = False
+                break
+            pos = [e for e in p.flat() if e.kind == "cond" and e.extra.get("truth") is True and ".match(" in e.text]
+            other = [e for e in p.flat() if e.kind == "cond" and ".match(" not in e.text]
+            if other:
+                ok = False
+                break
+            if p.outcome[1].value:
+                ntrue += 1
+                # the last decision on the path: <$elem(..A..)>.match(<$elem(..B..)>) is true
+                top = [e for e in p.evs if e.kind == "cond"]
+                last = top[-1] if top else None
+                m = re.fullmatch(r"\$elem\((\w+)\)\.match\(\$elem\((\w+)\)\)", last.text) if last is not None and last.extra.get("truth") is True else None
+                if not m or {m.group(1), m.group(2)} != set(params):
+                    ok = False
+                    break
+                r = (params.index(m.group(1)), params.index(m.group(2)))
+                if roles not in (None, r):
+                    ok = False
+                    break
+                roles = r
+            else:
+                nfalse += 1
+                if [e for e in p.evs if e.kind == "cond" and e.extra.get("truth") is True]:
+                    ok = False
+                    break
+        if ok and roles and ntrue and nfalse:
+            out[name] = roles
+    return out
+
+
 def run(ctx) -> None:
     P = ctx.P
     RT = ctx.rule("C15/type-exhaustive", "every concrete event class has a non-empty event_type for which FileSystemEventHandler defines on_<type>; every on_* callback corresponds to a class", floor=15)
@@ -94,7 +151,20 @@ def run(ctx) -> None:
                     n += 1
         ctx.check(n == 0, RT, f"{a} never instantiated", f"{n} constructor call(s) of abstract {a}", evm.classes[a].loc, nontrivial=False)
 
-    en = Enumerator(Cfg(P))
+    evmod = P.module("watchdog.events")
+    exists_preds = exists_predicates(P, evmod)
+    ctx.extra["exists_predicates"] = {k: list(v) for k, v in exists_preds.items()}
+
+    class HCfg(Cfg):
+        """Module-level private helpers of watchdog.events are inlined, except the ones recognised as 'some regex of A matches
+        some path of B' predicates: those stay opaque atoms `helper(A, B)` (their definition is checked once, below)."""
+
+        def inline(self, call, func_text, recv_cls, st):
+            if isinstance(call.func, ast.Name) and call.func.id.startswith("_") and call.func.id in evmod.functions and call.func.id not in exists_preds:
+                return (evmod.functions[call.func.id], st.selfcls, None)
+            return None
+
+    en = Enumerator(HCfg(P))
     # ---- base dispatch
     d = H.methods.get("dispatch")
     if d is None:
@@ -219,18 +289,35 @@ def run(ctx) -> None:
         c = p.conds()
         sup = [e for e in p.evs if e.kind == "call" and e.extra.get("func") in ("super().dispatch", "FileSystemEventHandler.dispatch")]
         ign_dir = c.get("self.ignore_directories") is True and c.get("event.is_directory") is True
-        anys = [(a, v) for a, v in c.items() if a.startswith("any(")]
+        anys = [(a, v) for a, v in c.items() if a.startswith("any(") or a.split("(")[0] in exists_preds]
         if not ign_dir:
             rcalls = [e for e in p.evs if e.kind == "call"]
-            # the list the regexes are matched against: the iterable named in the any(...) tests
+            # the list the regexes are matched against: the iterable named in the any(...) tests / the helper's path argument
             m_ = re.search(r" for \w+ in (\w+)\)+$", anys[0][0]) if anys else None
             plist = m_.group(1) if m_ else "paths"
+            if anys and anys[0][0].split("(")[0] in exists_preds:
+                try:
+                    _c = ast.parse(anys[0][0], mode="eval").body
+                    plist = ast.unparse(_c.args[exists_preds[anys[0][0].split("(")[0]][1]])
+                except (SyntaxError, IndexError):
+                    pass
             rapps = [e for e in rcalls if e.extra.get("func") == f"{plist}.append"]
             for prob in collected_paths_problems(rapps, c.get("hasattr(event, 'dest_path')"), c.get("event.src_path")):
                 okr = False
                 msgs.append(prob)
         ign_atom = [(a, v) for a, v in anys if "self.ignore_regexes" in a]
         inc_atom = [(a, v) for a, v in anys if "self.regexes" in a]
+        # an opaque helper atom must carry the regex list in the helper's regex position
+        for a, _v in anys:
+            h = a.split("(")[0]
+            if h in exists_preds:
+                try:
+                    _c = ast.parse(a, mode="eval").body
+                    if "regexes" not in ast.unparse(_c.args[exists_preds[h][0]]):
+                        okr = False
+                        msgs.append(f"`{a[:60]}`: the regex list is not in the helper's regex position")
+                except (SyntaxError, IndexError):
+                    okr = False
         if ign_dir:
             if sup or anys:
                 okr = False
